@@ -41,6 +41,12 @@ fn protocol_err<SinkError, StreamError>(msg: impl AsRef<str>) -> super::ChMuxErr
     super::ChMuxError::Protocol(msg.as_ref().to_string())
 }
 
+/// Table of open local ports.
+#[cfg(not(remoc_verif))]
+type PortMap = HashMap<PortNumber, PortState>;
+#[cfg(remoc_verif)]
+type PortMap = HashMap<PortNumber, PortState, crate::exec::verif::DetHasher>;
+
 /// Port state.
 #[derive(Debug)]
 enum PortState {
@@ -200,7 +206,7 @@ pub struct ChMux<TransportSink, TransportStream> {
     /// Port allocator.
     port_allocator: PortAllocator,
     /// Open local ports.
-    ports: HashMap<PortNumber, PortState>,
+    ports: PortMap,
     /// Outstanding requests by the remote endpoint for connecting ports.
     outstanding_remote_port_requests: HashSet<u32>,
     /// Sender from channels to event loop.
@@ -283,7 +289,7 @@ where
             connect_rx: Some(connect_rx),
             listen_tx: Some((listen_wait_tx, listen_no_wait_tx)),
             port_allocator: port_allocator.clone(),
-            ports: HashMap::new(),
+            ports: PortMap::default(),
             outstanding_remote_port_requests: HashSet::new(),
             channel_tx,
             channel_rx: Some(channel_rx),
